@@ -163,7 +163,7 @@ def run_deductive(pid, tier, known, jobs=None, only=None):
         return []
     # functions whose proof takes minutes are verified in the thorough tier only (contracts/tuning.py THOROUGH_ONLY);
     # the quick tier reports them as not run and decides them by the bounded stand-in
-    skipped = [k for k in keys if tier != "thorough" and getattr(REGISTRY[k], "thorough_only", False) and not only]
+    skipped = [k for k in keys if tier != "thorough" and getattr(REGISTRY[k], "thorough_only", False) and not (only and any(o != ":" and o in k for o in only))]
     keys = [k for k in keys if k not in skipped]
     SKIPPED_TIER[pid] = skipped
     args = []
